@@ -558,6 +558,7 @@ func (c *Chunker) buildSections(doc *model.Document) []*Section {
 				}
 				sections = append(sections, preambleSection)
 				preambleContent = nil
+				preambleStartPage = 0
 			}
 
 			// Create new section for this heading
@@ -601,15 +602,24 @@ func (c *Chunker) buildSections(doc *model.Document) []*Section {
 
 				sectionStack = append(sectionStack, newSection)
 			} else {
-				// Minor heading - include in current section's content
+				// Minor heading - include in current section's content, or in the
+				// content collected outside any section
+				elem := ContentElement{
+					Type: model.ElementTypeHeading,
+					Text: heading.Text,
+					Page: pageIndex,
+					BBox: heading.BBox,
+				}
 				if len(sectionStack) > 0 {
 					currentSection := sectionStack[len(sectionStack)-1]
-					currentSection.Content = append(currentSection.Content, ContentElement{
-						Type: model.ElementTypeHeading,
-						Text: heading.Text,
-						Page: pageIndex,
-						BBox: heading.BBox,
-					})
+					currentSection.Content = append(currentSection.Content, elem)
+					currentSection.PageEnd = pageIndex
+				} else {
+					preambleContent = append(preambleContent, elem)
+					if preambleStartPage == 0 {
+						preambleStartPage = pageIndex
+					}
+					preambleEndPage = pageIndex
 				}
 			}
 		}
@@ -660,8 +670,8 @@ func (c *Chunker) buildSections(doc *model.Document) []*Section {
 		}
 	}
 
-	// Handle any remaining preamble content
-	if len(preambleContent) > 0 && len(sections) == 0 {
+	// Handle any remaining content collected outside any section
+	if len(preambleContent) > 0 {
 		preambleSection := &Section{
 			Title:     "",
 			Path:      nil,
